@@ -17,6 +17,10 @@
 // replaced by a new one), R's durability predicate is evaluated on it, a continuation probe (Put+Sync+Close+reopen) is
 // run on it, and the sequence of recovered states is compared with the model's recovered states over all prefixes of
 // the model's effect list.
+//
+// Concurrent use (family "concurrent", genParCase): a request `par <items>` makes every item one call in its own goroutine
+// of W, all released together; the items commute, so O and R are given the same calls in the listed order and every reply
+// and the state after the batch must agree with them whatever the schedule was.
 package main
 
 import (
@@ -302,6 +306,74 @@ func runCase(c caseT) bool {
 			crashed = true
 			continue
 		}
+		if op == "par" {
+			// concurrent use: every item of the batch is one call made by its own goroutine, all released together. The
+			// items commute (distinct keys; Count only next to calls that leave the key set alone), so whatever the schedule
+			// every reply, and the state after the batch, must be that of the same calls made one after the other — which is
+			// what the model and the Go map are given.
+			if crashed || len(t) != 2 {
+				r.TieFail("tie:par", "malformed par request "+short(line), upto(i))
+				return false
+			}
+			seq := parLines(t[1])
+			if seq == nil {
+				r.TieFail("tie:par", "malformed par request "+short(line), upto(i))
+				return false
+			}
+			r.Hit("op:par")
+			r.Hit(fmt.Sprintf("par:goroutines=%d..%d", len(seq)/4*4, len(seq)/4*4+3))
+			if prevNl > 0 {
+				r.Hit("lazy:par-with-unloaded-records")
+			}
+			wr, alive := W.ask(line)
+			if !alive {
+				propFail("prop:dead:par", fmt.Sprintf("request %d %q (concurrent calls) killed the process (%s)", i, short(line), W.lastErr()), upto(i))
+				fresh(&W)
+				return false
+			}
+			wres, wstate := splitRes(wr)
+			reps := strings.Split(wres, "|")
+			if len(reps) != len(seq) {
+				r.TieFail("tie:par", fmt.Sprintf("request %d %q: worker replied %q", i, short(line), short(wr)), upto(i))
+				return false
+			}
+			ostate := ""
+			for j, sl := range seq {
+				st := strings.Fields(sl)
+				ref.before(st)
+				if bad := ref.check(st, reps[j]); bad != "" {
+					propFail("prop:par:"+st[0], fmt.Sprintf("request %d %q, call %d (%s) made concurrently with the others: %s", i, short(line), j, short(sl), bad), upto(i))
+					return false
+				}
+				if !desync {
+					ores, ost := splitRes(o.MustAsk(sl))
+					if ost != "" { // (count has no state part)
+						ostate = ost
+					}
+					if ores != reps[j] {
+						r.TieFail("tie:par", fmt.Sprintf("request %d %q, call %d (%s): impl %q model %q", i, short(line), j, short(sl), short(reps[j]), short(ores)), upto(i))
+						leaveModel(i)
+					}
+				}
+			}
+			if !desync {
+				if ostate != "" && ostate != wstate {
+					r.TieFail("tie:par", fmt.Sprintf("request %d %q: state after the batch: impl %q model %q", i, short(line), short(wstate), short(ostate)), upto(i))
+					leaveModel(i)
+				} else {
+					r.TieOK()
+				}
+			}
+			prevNl, prevPe = stateNum(wstate, " nl="), stateNum(wstate, " pe=")
+			ref.save()
+			ref.after(t, wstate)
+			ref.persist(t, wstate, listing, listing)
+			if desync && !tailed && i == len(lines)-1 {
+				tailed = true
+				lines = append(lines, tailLines(caseT{Lines: lines}, ref.open)...)
+			}
+			continue
+		}
 		ref.before(t)
 		if op == "open" {
 			if strings.Contains(listing, "qdbidx.0:") && strings.Contains(listing, "qdbidx.1:") {
@@ -459,6 +531,36 @@ func runCase(c caseT) bool {
 		}
 	}
 	return !desync
+}
+
+// parLines: the items of a `par` request as the request lines of the same calls made one after the other
+// (g<key> Get, c Count, f<key>:<flags> ApplyFlags, p<key>:<hex> Put, d<key> Del); nil when malformed.
+func parLines(items string) []string {
+	var out []string
+	for _, it := range strings.Split(items, ",") {
+		if it == "" {
+			return nil
+		}
+		arg, ext := it[1:], ""
+		if c := strings.IndexByte(arg, ':'); c >= 0 {
+			arg, ext = arg[:c], arg[c+1:]
+		}
+		switch it[0] {
+		case 'g':
+			out = append(out, "get "+arg)
+		case 'c':
+			out = append(out, "count")
+		case 'f':
+			out = append(out, "flags "+arg+" "+ext)
+		case 'p':
+			out = append(out, "put "+arg+" "+ext)
+		case 'd':
+			out = append(out, "del "+arg)
+		default:
+			return nil
+		}
+	}
+	return out
 }
 
 func parseOrder(s string) []uint64 {
@@ -655,7 +757,7 @@ func main() {
 
 	r.Assume = []string{
 		"crash = process kill at a system-call boundary: every completed system call survives entirely, an interrupted one has not happened, user-space buffers (bufio, bytes.Buffer) are lost; a write(2) torn inside (SIGKILL between two pages of a multi-page write), reordered writes and power loss are outside (fsync is not modelled)",
-		"one process uses the directory; the harness waits for db.Mutex after every call, so Put's asynchronous sync has finished before the next call",
+		"one process uses the directory; the harness waits for db.Mutex after every call, so Put's asynchronous sync has finished before the next call; concurrent use is exercised by batches of COMMUTING calls only (request par: one goroutine per call, released together; replies and state must be those of the listed order) — non-commuting concurrent calls, and Browse / Sync / Defrag / Close inside a batch, are not generated",
 		"keys and values are not mutated by the caller after Put / Get (the store keeps the caller's slice)",
 		"NewDBExt without WalkFunction; when a walk answer carries BR_ABORT the model is given the order in which the real store visited the records (Go's map order; request lastorder) as the order of its walk list — every other part of the reply, and what the aborted browse did to flags and cached copies, is compared as for any request",
 		"files stay below 4 GiB (datpos is a uint32); index snapshots stay below 1 MiB (at most a few records per case; the theorems' bound is 43 690 records, client/peersdb allows 70 000)",
@@ -698,7 +800,27 @@ func main() {
 	}
 	// bare BR_ABORT at every record of a fresh store, against the Go map only (any single element is acceptable); BR_ABORT in
 	// combination with flag answers, on Browse and BrowseAll, inside whole histories: genWalk / the abort shape / the corpus
-	abortStream(g.Fork(), r.N(20, 200))
+	ga := g.Fork()
+	// concurrent use: batches of commuting calls made by several goroutines at the same moment (genParCase), against the
+	// model and the Go map run in the listed order
+	gp := g.Fork()
+	npar := r.N(30, 500)
+	if s := os.Getenv("VERIF_C19_NPAR"); s != "" { // (self-test of this family alone)
+		npar, _ = strconv.Atoi(s)
+	}
+	for i := 0; i < npar && !propFound && tieFails-tf0 < 6; i++ {
+		c := genParCase(gp.Fork(), i)
+		r.Eval("concurrent", strings.Join(c.Lines, "\n"))
+		if i < 2 {
+			r.Sample(map[string]interface{}{"concurrent": c.Name, "lines": len(c.Lines), "first": firstLines(c, 8)})
+		}
+		runCase(c)
+		if os.Getenv("VERIF_C19_PARSTAT") != "" { // (self-test: per-case detection statistics of the concurrent family on a changed tree)
+			fmt.Fprintf(os.Stderr, "PARSTAT %s fail=%v %s\n", c.Name, propFound, parStat(c))
+			propFound = false
+		}
+	}
+	abortStream(ga, r.N(20, 200))
 	finish()
 }
 
@@ -730,7 +852,7 @@ func finish() {
 	W.stop()
 	R.stop()
 	r.Finish(
-		"a case is a request sequence (open options, puts/deletes/gets/browses/flag changes/sync/nosync/defrag/close+reopen over 2..6 keys); distinct = distinct request text; every request is one model-vs-impl comparison (incl. the number of records not in memory); count+peek (full content, compared with a Go map and the model) follows every request of a dense case and stands at generator-chosen checkpoints of a sparse case; every vhook.Point hit is one crash evaluation",
+		"a case is a request sequence (open options, puts/deletes/gets/browses/flag changes/sync/nosync/defrag/close+reopen over 2..6 keys); distinct = distinct request text; every request is one model-vs-impl comparison (incl. the number of records not in memory); count+peek (full content, compared with a Go map and the model) follows every request of a dense case and stands at generator-chosen checkpoints of a sparse case; every vhook.Point hit is one crash evaluation; a 'concurrent' case additionally holds batches of commuting calls made by up to 12 goroutines at once (par), each reply compared with the Go map and the model run in the listed order",
 		"Real qdb (child process) vs Lean model Model/Qdb.lean vs plain Go map; durability predicate evaluated on directory snapshots at every crash point and compared with the model's recovery of every prefix of its effect list.")
 }
 
@@ -757,6 +879,33 @@ func replay(file string) {
 	r.Eval("replay", c.Name)
 	r.Sample(map[string]interface{}{"replay": c.Name, "lines": len(c.Lines)})
 	runCase(c)
+	// a case with concurrent calls depends on the schedule: it is repeated until it fails again (at most 60 times)
+	for _, l := range c.Lines {
+		if strings.HasPrefix(l, "par ") {
+			for n := 0; n < 60 && !propFound && tieFails == 0; n++ {
+				r.Eval("replay", fmt.Sprintf("%s#%d", c.Name, n+2))
+				runCase(c)
+			}
+			break
+		}
+	}
 }
 
 func itoa(n uint64) string { return strconv.FormatUint(n, 10) }
+
+// parStat: the shape of a concurrent case, for the self-test statistics
+func parStat(c caseT) string {
+	out := ""
+	for _, l := range c.Lines {
+		t := strings.Fields(l)
+		switch t[0] {
+		case "par":
+			out += fmt.Sprintf(" par%d", len(strings.Split(t[1], ",")))
+		case "putext":
+			out += fmt.Sprintf(" v%d", len(t[2])/2)
+		case "open", "sync", "close", "defrag", "browse", "browseall", "get":
+			out += " " + t[0]
+		}
+	}
+	return out
+}
